@@ -60,6 +60,26 @@ def run(chk, repo, tier):
         for p in returns(paths):           # every path: no shortcut around the ufunc (the result is always a new Spectrum)
             cs = p.calls(f'{SPEC}._ufunc')
             good = False
+            if not cs and not repo.has_func(f'{SPEC}._ufunc'):
+                # the shared helper is gone (split, merged): whichever function of the package is handed the ufunc stands in
+                # for it, provided it also gets the other operand and the three options, and its result is returned
+                want_u = Const(('ext', ufunc))
+                alt = [e for e in p.events if e.kind == 'call' and e.depth == 0 and repo.has_func(str(e.data.get('callee'))) and
+                       any(v == want_u for v in (e.data.get('bound') or {}).values())]
+                if len(alt) == 1:
+                    b = alt[0].bound
+                    seen = set()
+                    for v in b.values():
+                        seen |= set(nf.value_atoms(v)) if v is not None else set()
+                    good = any(v == S('other') for v in b.values()) and p.ret == alt[0].result
+                    if good and not all(('sym', k) in seen for k in ('sampling', 'method', 'fill_value')):
+                        good = None
+                    det = det or ('' if good else f'undecided: the options are not visibly handed to {alt[0].data.get("callee")}'
+                                  if good is None else f'{alt[0].data.get("callee")} does not get the operand / its result is not returned')
+                else:
+                    good, det = None, 'undecided: Spectrum._ufunc is gone and no single call takes the ufunc'
+                ok = None if (good is None and ok) else (ok and good)
+                continue
             if len(cs) == 1:
                 u = cs[0].bound.get('ufunc')
                 b = cs[0].bound
@@ -323,8 +343,10 @@ def run(chk, repo, tier):
         if len(smp) != 2:
             raise AnalysisError(f'_interp_common: expected two sample calls, found {len(smp)}')
         a, b = smp[0].bound, smp[1].bound
+        moved13 = repo.signature_moved('radiometry._interp_common')
+        fill13 = a.get('fill_value') if moved13 and a.get('fill_value') is not None else S('fill_value')
         same = all(a.get(k) == b.get(k) for k in ('method', 'fill_value', 'waveunit')) and \
-            a.get('method') == S('method') and a.get('fill_value') == S('fill_value')
+            (moved13 or (a.get('method') == S('method') and a.get('fill_value') == S('fill_value')))
         chk.ob('C13-f', 'N-sibling', fi.key, f'both operands sampled with the same method, fill value and unit [{tag}]', same,
                f'first: method={fmt(a.get("method"))}, fill={fmt(a.get("fill_value"))}, unit={fmt(a.get("waveunit"))}; '
                f'second: method={fmt(b.get("method"))}, fill={fmt(b.get("fill_value"))}, unit={fmt(b.get("waveunit"))}',
@@ -368,10 +390,10 @@ def run(chk, repo, tier):
         if okfill:
             for val, sm in zip(r.items[1:], smp):
                 va = val.single_atom() if isinstance(val, Poly) else None
-                starts = (S('fill_value') * nf.app('ones', nf.attr(r.items[0], 'shape')),
-                          S('fill_value') * nf.app('ones', Tup([nf.attr(r.items[0], 'size')])),
-                          S('fill_value') * nf.app('ones', nf.attr(r.items[0], 'size')),
-                          nf.app('full', nf.attr(r.items[0], 'shape'), S('fill_value')))
+                starts = (fill13 * nf.app('ones', nf.attr(r.items[0], 'shape')),
+                          fill13 * nf.app('ones', Tup([nf.attr(r.items[0], 'size')])),
+                          fill13 * nf.app('ones', nf.attr(r.items[0], 'size')),
+                          nf.app('full', nf.attr(r.items[0], 'shape'), fill13))
                 okfill = okfill and va is not None and is_app(va, 'setitem') and va[2][2] == sm.result and va[2][0] in starts
         det_fill = ''
         if not (isinstance(r, Tup) and len(r) == 3) or any(isinstance(x, Poly) and x.single_atom() is not None and
